@@ -200,13 +200,64 @@ Lemma dup_err_true n : dup_err true n <> [].
 Proof. discriminate. Qed.
 
 (** * check_doc = [] , definition by definition *)
-Lemma check_doc_nil doc : check_doc doc = [] <-> forall d, In d doc -> check_def doc d = [].
-Proof. unfold check_doc. apply flat_map_nil. Qed.
+(** the pass over the definitions with its list of directive names seen so far *)
+Lemma user_directives_cons d defs :
+  user_directives (d :: defs) =
+  match d with
+  | TSDirective dd => if pbuiltin (dd_pos dd) then user_directives defs else dd :: user_directives defs
+  | _ => user_directives defs
+  end.
+Proof.
+  unfold user_directives, directives_of. destruct d; cbn [flat_map app filter]; try reflexivity.
+  destruct (pbuiltin (dd_pos d)); reflexivity.
+Qed.
+
+(** with distinct names among the schema's own directive definitions the pass is a plain flat_map *)
+Lemma check_defs_flat doc defs : forall seen,
+  NoDup (map dn (user_directives defs)) -> (forall n, In n (map dn (user_directives defs)) -> ~ In n seen) ->
+  check_defs doc seen defs = flat_map (check_def doc) defs.
+Proof.
+  induction defs as [|d r IH]; intros seen Hnd Hdis; [reflexivity|]. cbn [check_defs flat_map].
+  rewrite user_directives_cons in Hnd, Hdis.
+  destruct d as [sd|t|dd|se|te]; cbn [dup_directive_errs seen_after app]; try (rewrite (IH seen Hnd Hdis); reflexivity).
+  destruct (pbuiltin (dd_pos dd)); [cbn [app]; rewrite (IH seen Hnd Hdis); reflexivity|].
+  cbn [map] in Hnd, Hdis. inversion Hnd as [|? ? Hx Hr]; subst.
+  assert (M : mem (dname dd) seen = false) by (apply mem_false; apply Hdis; left; reflexivity).
+  rewrite M. cbn [app]. rewrite (IH (dname dd :: seen) Hr); [reflexivity|].
+  intros n Hn [<-|Hs]; [exact (Hx Hn) | exact (Hdis n (or_intror Hn) Hs)].
+Qed.
+Lemma check_doc_flat doc : NoDup (map dn (user_directives doc)) -> check_doc doc = flat_map (check_def doc) doc.
+Proof. intros H. unfold check_doc. apply check_defs_flat; [exact H | intros n _ []]. Qed.
+
+Lemma check_defs_nil doc defs : forall seen,
+  check_defs doc seen defs = [] ->
+  (forall d, In d defs -> check_def doc d = []) /\
+  NoDup (map dn (user_directives defs)) /\ (forall n, In n (map dn (user_directives defs)) -> ~ In n seen).
+Proof.
+  induction defs as [|d r IH]; intros seen H; cbn [check_defs] in H.
+  - split; [intros ? []|]. split; [constructor | intros ? []].
+  - apply app_eq_nil in H as [H1 H]. apply app_eq_nil in H as [H2 H3]. destruct (IH _ H3) as [A [B C]].
+    split; [intros x [<-|Hx]; [exact H2 | apply A; exact Hx]|]. rewrite user_directives_cons.
+    destruct d as [sd|t|dd|se|te]; cbn [dup_directive_errs seen_after] in *; try (split; assumption).
+    destruct (pbuiltin (dd_pos dd)); [split; assumption|].
+    destruct (mem (dname dd) seen) eqn:M; [discriminate|]. apply mem_false in M. cbn [map]. split.
+    + constructor; [|exact B]. intros Hin. apply (C _ Hin). left; reflexivity.
+    + intros n [<-|Hn]; [exact M|]. intros Hs. apply (C n Hn). right; exact Hs.
+Qed.
+
+Lemma check_doc_nil doc : check_doc doc = [] -> forall d, In d doc -> check_def doc d = [].
+Proof. intros H. exact (proj1 (check_defs_nil doc doc [] H)). Qed.
+(** no diagnostic => the schema's own directive definitions have distinct names *)
+Lemma check_doc_user_directives_unique doc : check_doc doc = [] -> NoDup (map dn (user_directives doc)).
+Proof. intros H. exact (proj1 (proj2 (check_defs_nil doc doc [] H))). Qed.
+Lemma check_doc_nil_conv doc :
+  (forall d, In d doc -> check_def doc d = []) -> NoDup (map dn (user_directives doc)) -> check_doc doc = [].
+Proof. intros H Hnd. rewrite (check_doc_flat doc Hnd). apply flat_map_nil. exact H. Qed.
 
 Lemma check_nil_type doc t : check_doc doc = [] -> In t (types_of doc) -> check_typedef doc t = [].
-Proof. intros H Hin. apply In_types_of in Hin. exact (proj1 (check_doc_nil doc) H _ Hin). Qed.
+Proof. intros H Hin. apply In_types_of in Hin. exact (check_doc_nil doc H _ Hin). Qed.
 Lemma check_nil_directive doc d : check_doc doc = [] -> In d (directives_of doc) -> check_directive_def doc d = [].
-Proof. intros H Hin. apply In_directives_of in Hin. exact (proj1 (check_doc_nil doc) H _ Hin). Qed.
+Proof. intros H Hin. apply In_directives_of in Hin. exact (check_doc_nil doc H _ Hin). Qed.
 
 Ltac split_nil H :=
   repeat match type of H with
@@ -324,7 +375,7 @@ Section Clean.
   Lemma clean_apps x : In x (all_apps doc) -> check_directives doc (snd x) (fst x) = [].
   Proof.
     unfold all_apps. rewrite in_flat_map. intros [d [Hd Hx]].
-    pose proof (proj1 (check_doc_nil doc) Hchk d Hd) as H.
+    pose proof (check_doc_nil doc Hchk d Hd) as H.
     destruct d as [sd|t|dd|se|te]; cbn [check_def] in H; try contradiction.
     - destruct Hx as [<-|[]]. exact H.
     - destruct t; cbn [type_apps check_typedef] in *; split_nil H.
@@ -341,3 +392,38 @@ Section Clean.
       destruct (dd_args dd); [exact H | reflexivity].
   Qed.
 End Clean.
+
+(** * unique directive names from their two halves *)
+Lemma NoDup_map_split {A} (f : A -> str) (p : A -> bool) l :
+  NoDup (map f (filter p l)) -> NoDup (map f (filter (fun x => negb (p x)) l)) ->
+  (forall x, In x (filter (fun x => negb (p x)) l) -> ~ In (f x) (map f (filter p l))) ->
+  NoDup (map f l).
+Proof.
+  induction l as [|a l IH]; intros H1 H2 H3; [constructor|]. cbn [map filter] in *.
+  assert (Hsplit : forall y, In y l -> In y (filter p l) \/ In y (filter (fun x => negb (p x)) l)).
+  { intros y Hy. destruct (p y) eqn:E; [left | right]; apply filter_In; split; auto. rewrite E. reflexivity. }
+  destruct (p a) eqn:Pa; cbn [negb map] in *.
+  - inversion H1 as [|? ? Hx Hr]; subst. constructor.
+    + intros Hin. apply in_map_iff in Hin as [y [Hfy Hy]]. destruct (Hsplit y Hy) as [Hy'|Hy'].
+      * apply Hx. rewrite <- Hfy. apply in_map. exact Hy'.
+      * apply (H3 y Hy'). left. symmetry. exact Hfy.
+    + apply IH; [exact Hr | exact H2|]. intros x Hx' Hin. apply (H3 x Hx'). right; exact Hin.
+  - inversion H2 as [|? ? Hx Hr]; subst. constructor.
+    + intros Hin. apply in_map_iff in Hin as [y [Hfy Hy]]. destruct (Hsplit y Hy) as [Hy'|Hy'].
+      * apply (H3 a (or_introl eq_refl)). rewrite <- Hfy. apply in_map. exact Hy'.
+      * apply Hx. rewrite <- Hfy. apply in_map. exact Hy'.
+    + apply IH; [exact H1 | exact Hr|]. intros x Hx' Hin. apply (H3 x (or_intror Hx')). exact Hin.
+Qed.
+
+Lemma unique_names_from doc :
+  unique_type_names doc = true -> ok_dup_directive doc = true -> builtins_not_redefined doc = true -> unique_names doc = true.
+Proof.
+  unfold unique_type_names, ok_dup_directive, builtins_not_redefined, unique_names. intros Ht Hu Hb.
+  rewrite Ht. cbn [andb]. apply andb_true_iff in Hb as [Hb1 Hb2].
+  apply nodup_str_NoDup in Hu, Hb1. apply nodup_str_NoDup.
+  apply (NoDup_map_split (fun d => iname (dd_name d)) (fun d => pbuiltin (dd_pos d)) (directives_of doc)).
+  - exact Hb1.
+  - exact Hu.
+  - intros x Hx Hin. rewrite forallb_forall in Hb2. specialize (Hb2 x Hx). apply negb_true_iff in Hb2.
+    apply not_true_iff_false in Hb2. apply Hb2. apply existsb_str_In. exact Hin.
+Qed.
